@@ -43,7 +43,7 @@ ASSUMPTIONS = {"C17": [
     "agreement across 4 sampled environments per batch; not all 2^64 hash seeds",
 ]}
 EXPECTED_PROBES = {"C17": ["api:reconf_forest", "api:agglom", "api:divide", "api:reconf", "api:anneal", "api:temper", "api:tree_slice",
-                           "api:rgreedy", "api:rand_equation", "api:get_subtree", "api:greedy_span", "env:hashseed_varied", "probe:twice_on_same_object",
+                           "api:rgreedy", "api:rand_equation", "api:get_subtree", "api:greedy_span", "env:hashseed_varied", "probe:twice_on_same_object", "api:object_interleaved", "api:perverse_equation",
                            "env:pool_order_varied"]}
 
 
@@ -135,6 +135,13 @@ def gen_cases(rng):
                             "max_window_tries": 20, "score_temperature": 0.1}}, _net(rng, 6, 9, plain=True), tree=True)
     add("greedy_compressed", {"kw": {"chi": rng.choice([2, 4, 8]), "temperature": rng.choice([0.0, 0.5])}}, _net(rng, 6, 10, plain=True))
     add("greedy_span", {"kw": {"start": rng.choice(["max", "min"]), "temperature": rng.choice([0.0, 0.5])}}, _net(rng, 6, 10, plain=True))
+    add("perverse_equation", {"kw": {"n": rng.randint(3, 8), "num_indices": rng.randint(3, 14), "max_rank": rng.randint(2, 5),
+                                     "n_outer": rng.randint(0, 3)}})
+    add("perverse_equation", {"kw": {"n": rng.randint(2, 4), "num_indices": rng.randint(10, 16), "max_rank": 3, "n_outer": rng.randint(1, 3)}})
+    for kind in ("rgreedy", "random_opt", "slicefinder", "greedy_span"):
+        if rng.random() < 0.6:
+            add("object_interleaved", {"kind": kind, "other_seed": rng.randrange(2 ** 30), "target_size": 2 ** rng.randint(1, 3)},
+                _net(rng, 6, 9, plain=(kind == "greedy_span")), tree=True)
     add("rand_equation", {"kw": {"n": rng.randint(3, 12), "reg": rng.randint(2, 4), "n_out": rng.randint(0, 2),
                                  "n_hyper_in": rng.randint(0, 2), "n_hyper_out": rng.randint(0, 1), "d_max": rng.randint(2, 5)}})
     add("randreg_equation", {"kw": {"n": rng.choice([6, 8, 10]), "reg": 3}})
@@ -214,7 +221,7 @@ def run_case(prop, case):
         vals = [r.get(cid) for r in results]
         if ref.get(cid, "").startswith("EXC "):
             counters["case_raised:" + c["api"]] += 1
-        if c.get("twice") and not ref.get(cid, "").startswith("EXC "):
+        if (c.get("twice") or c["api"] == "object_interleaved") and not ref.get(cid, "").startswith("EXC "):
             try:
                 same = json.loads(ref[cid]).get("same")
             except Exception:
@@ -222,8 +229,8 @@ def run_case(prop, case):
             if same is False:
                 violations.append({
                     "oracle": "seeded-result-depends-on-history",
-                    "detail": f"case {cid} (api {c['api']}, seed {c['seed']}, args {json.dumps(c.get('args'))[:200]}): the same seeded non-inplace call "
-                              f"issued twice on one tree object returned different results: {str(ref[cid])[:300]}",
+                    "detail": f"case {cid} (api {c['api']}, seed {c['seed']}, args {json.dumps(c.get('args'))[:200]}): the same seeded call gave different "
+                              f"results depending on what ran before it (twice on one object / other seeded calls in between): {str(ref[cid])[:300]}",
                     "sig": {"api": c["api"], "pool": bool(c.get("pool")), "case": cid, "envs": [0, 0], "partitioner": None},
                 })
                 continue
